@@ -2,6 +2,7 @@ package c17
 
 import (
 	"bytes"
+	"encoding/binary"
 	"encoding/hex"
 	"encoding/json"
 	"encoding/xml"
@@ -16,6 +17,8 @@ import (
 	"github.com/twpayne/go-geom/encoding/geojson"
 	"github.com/twpayne/go-geom/encoding/igc"
 	gkml "github.com/twpayne/go-geom/encoding/kml"
+	"github.com/twpayne/go-geom/encoding/wkb"
+	"github.com/twpayne/go-geom/encoding/wkbcommon"
 	"github.com/twpayne/go-geom/encoding/wkt"
 	"github.com/twpayne/go-geom/transform"
 	"github.com/twpayne/go-geom/xy"
@@ -39,6 +42,10 @@ type item struct {
 	b      []byte
 	s      string
 	bd     *geom.Bounds
+	// option values that applications typically create once and share
+	gjOpts  []geojson.EncodeGeometryOption
+	wktEnc  *wkt.Encoder
+	wkbOpts []wkbcommon.WKBOption
 }
 
 type fn struct {
@@ -494,6 +501,35 @@ func init() {
 			}
 		}
 		return out
+	})
+	// ---- option values shared between callers -------------------------------------
+	reg("geojson.Marshal/shared-options", []string{"g", "o:gj"}, func(c *Call, a []*item) any {
+		b, err := geojson.Marshal(a[0].g, a[1].gjOpts...)
+		return []any{string(b), err}
+	})
+	reg("geojson.Encode/shared-options", []string{"g", "o:gj"}, func(c *Call, a []*item) any {
+		ge, err := geojson.Encode(a[0].g, a[1].gjOpts...)
+		if err != nil {
+			return err
+		}
+		b, err := json.Marshal(ge)
+		return []any{string(b), err}
+	})
+	reg("wkt.Encoder.Encode/shared-encoder", []string{"g", "o:wktenc"}, func(c *Call, a []*item) any {
+		s, err := a[1].wktEnc.Encode(a[0].g)
+		return []any{s, err}
+	})
+	reg("wkb.Marshal/shared-options", []string{"g", "o:wkbopt"}, func(c *Call, a []*item) any {
+		var order binary.ByteOrder = wkb.NDR
+		if c.I&4 != 0 {
+			order = wkb.XDR
+		}
+		b, err := wkb.Marshal(a[0].g, order, a[1].wkbOpts...)
+		return []any{b, err}
+	})
+	reg("wkb.Unmarshal/shared-options", []string{"b", "o:wkbopt"}, func(c *Call, a []*item) any {
+		g, err := wkb.Unmarshal(a[0].b, a[1].wkbOpts...)
+		return []any{g, err}
 	})
 	reg("kml.Encode", []string{"g"}, func(c *Call, a []*item) any { return xmlOf(gkml.Encode(a[0].g)) })
 	reg("igc.Read", []string{"i"}, func(c *Call, a []*item) any {
